@@ -51,18 +51,65 @@ full-wildcard patterns -/
 def WildHaveHandlers (root : Node) : Prop :=
   ∀ pat x, StoredAt root pat x → pat.getLast? = some .wild → x.hs.isSome
 
+/-! ## bridge to the function-style notions of `Lemmas/Mux.lean`
+
+`StoredAt` is `getAt` (the model's own path lookup) restricted to paths with `>` last;
+`ElemsMatch`/`MoreSpecific` are the same recursions as `EMatch`/`MoreSpec`. -/
+
+theorem elemsMatch_iff (pat : List Elem) (toks : List Str) : ElemsMatch pat toks ↔ EMatch pat toks := by
+  fun_induction ElemsMatch pat toks <;> simp_all [EMatch]
+
+theorem elemCls_eq (e : Elem) : elemCls e = eCls e := by cases e <;> rfl
+
+theorem moreSpecific_iff (a b : List Elem) : MoreSpecific a b ↔ MoreSpec a b := by
+  fun_induction MoreSpecific a b <;> simp_all [MoreSpec, elemCls_eq]
+
+theorem StoredAt.toGetAt {n : Node} {pat : List Elem} {x : Node} (h : StoredAt n pat x) :
+    getAt n pat = some x ∧ WildLast pat := by
+  induction h with
+  | here n => simp [WildLast]
+  | lit hc _ ih => simp [getAt_cons, child, hc, ih.1, WildLast, ih.2]
+  | param hc _ ih => simp [getAt_cons, child, hc, ih.1, WildLast, ih.2]
+  | wild hc => simp [getAt_cons, child, hc, WildLast]
+
+theorem StoredAt.of_getAt (pat : List Elem) : ∀ {n x : Node}, getAt n pat = some x → WildLast pat → StoredAt n pat x := by
+  induction pat with
+  | nil => intro n x h _; simp at h; subst h; exact .here n
+  | cons e r ih =>
+    intro n x h hw
+    rw [getAt_cons] at h
+    cases hc : child n e with
+    | none => simp [hc] at h
+    | some c =>
+      simp only [hc, Option.bind_some] at h
+      cases e with
+      | lit s => exact .lit hc (ih h hw.2)
+      | param => exact .param hc (ih h hw.2)
+      | wild =>
+        have := hw.1 rfl; subst this
+        simp at h; subst h
+        exact .wild hc
+
+theorem storedAt_iff {n : Node} {pat : List Elem} {x : Node} :
+    StoredAt n pat x ↔ getAt n pat = some x ∧ WildLast pat :=
+  ⟨StoredAt.toGetAt, fun h => StoredAt.of_getAt pat h.1 h.2⟩
+
+
+/-! ## the property theorems -/
+
 /-- **soundness of lookup**: what `matchNode` returns is stored under a pattern that matches
 the name, and (for an accepted configuration) carries a handler -/
 theorem match_sound (root : Node) (toks : List Str) (f : Found)
     (h : matchNode root toks 0 0 = some f) :
     ∃ pat, StoredAt root pat f.node ∧ ElemsMatch pat toks := by
-  sorry
+  obtain ⟨pat, hg, hm⟩ := matchNode_sound toks root 0 0 f h
+  exact ⟨pat, storedAt_iff.2 ⟨hg, EMatch_wildLast hm⟩, (elemsMatch_iff _ _).2 hm⟩
 
 /-- **completeness**: if some stored pattern with a handler matches the name, lookup finds one -/
 theorem match_complete (root : Node) (toks : List Str) (pat : List Elem) (x : Node)
     (hs : StoredAt root pat x) (hh : x.hs.isSome) (hm : ElemsMatch pat toks) (hne : toks ≠ []) :
-    ∃ f, matchNode root toks 0 0 = some f := by
-  sorry
+    ∃ f, matchNode root toks 0 0 = some f :=
+  matchNode_complete toks root 0 0 pat x hs.toGetAt.1 hh ((elemsMatch_iff _ _).1 hm) hne
 
 /-- **most specific**: no stored, handler-carrying, matching pattern is more specific than the
 pattern lookup chose (token by token from the left, literal > placeholder > full wildcard) -/
@@ -70,44 +117,55 @@ theorem match_most_specific (root : Node) (hw : WildHaveHandlers root) (toks : L
     (h : matchNode root toks 0 0 = some f) :
     ∃ pat, StoredAt root pat f.node ∧ ElemsMatch pat toks ∧ f.node.hs.isSome ∧
       ∀ pat' x', StoredAt root pat' x' → x'.hs.isSome → ElemsMatch pat' toks → ¬ MoreSpecific pat' pat := by
-  sorry
+  obtain ⟨pat, hg, hm, hh, hbest⟩ := matchNode_most_specific toks root 0 0 f
+    (fun pat x hg hwl hl => hw pat x (storedAt_iff.2 ⟨hg, hwl⟩) hl) h
+  refine ⟨pat, storedAt_iff.2 ⟨hg, EMatch_wildLast hm⟩, (elemsMatch_iff _ _).2 hm, hh, ?_⟩
+  intro pat' x' hs' hh' hm' hms
+  exact hbest pat' x' hs'.toGetAt.1 hh' ((elemsMatch_iff _ _).1 hm') ((moreSpecific_iff _ _).1 hms)
 
 /-- registration stores the handler exactly under the registered pattern … -/
 theorem add_stores (root : Node) (pattern : Str) (id : Nat) (g : Group) (root' : Node)
     (h : addAt root pattern id g = (root', .ok ())) :
     ∃ x, StoredAt root' ((splitPattern pattern).map elemOf) x ∧ (x.hs.map (·.id)) = some id := by
-  sorry
+  obtain ⟨x, hg, hw, hx⟩ := addAt_stores h
+  exact ⟨x, storedAt_iff.2 ⟨hg, hw⟩, hx⟩
 
 /-- … and changes the handler of no other pattern (frame), whether it succeeds or panics -/
 theorem add_frame (root : Node) (pattern : Str) (id : Nat) (g : Group) (pat : List Elem) (x : Node)
     (hne : pat ≠ (splitPattern pattern).map elemOf)
     (hs : StoredAt root pat x) :
     ∃ x', StoredAt (addAt root pattern id g).1 pat x' ∧ x'.hs = x.hs ∧ x'.listeners = x.listeners := by
-  sorry
+  obtain ⟨x', hg, hh⟩ := addAt_frame root pattern id g pat x hne hs.toGetAt.1
+  exact ⟨x', storedAt_iff.2 ⟨hg, hs.toGetAt.2⟩, hh⟩
 
 /-- a second registration on the same pattern (same trie edges) is rejected and an invalid
 pattern is rejected -/
 theorem add_conflict (root : Node) (pattern : Str) (id : Nat) (g : Group) (x : Node)
     (hs : StoredAt root ((splitPattern pattern).map elemOf) x) (hh : x.hs.isSome) :
-    (addAt root pattern id g).2 ≠ .ok () := by
-  sorry
+    (addAt root pattern id g).2 ≠ .ok () :=
+  addAt_conflict root pattern id g x hs.toGetAt.1 hh
 
 theorem add_invalid (root : Node) (pattern : Str) (id : Nat) (g : Group)
     (h : Pattern.isValid pattern = false) : (addAt root pattern id g).2 = .error .invalidPattern := by
-  sorry
+  simp [addAt, h]
 
 /-- every pattern the documentation calls valid, with distinct tags, can be registered on a
 fresh mux (in particular the anonymous placeholder `*`) -/
 theorem add_valid_fresh (pattern : Str) (id : Nat) (ts : List Pattern.Tok)
     (hv : Pattern.isValid pattern = true)   -- equals `(parse pattern).isSome` by C17.isValid_iff_parse
     (hp : Pattern.parse pattern = some ts) (hd : Pattern.distinctTags ts = true) :
-    (addAt Node.empty pattern id none).2 = .ok () := by
-  sorry
+    (addAt Node.empty pattern id none).2 = .ok () :=
+  addAt_valid_fresh pattern id ts none hv hp hd
 
 /-- **lookup never panics**: on every reachable tree, for every mux path and every input string -/
 theorem lookup_never_panics (root : Node) (hr : Reachable root) (path rname : Str) :
     getHandler path root rname ≠ .panic := by
-  sorry
+  have hg : Good root 0 := by
+    induction hr with
+    | empty => exact Good_empty 0
+    | handler pattern id group parallel _ ih => exact addHandlerAt_good _ pattern id group parallel ih
+    | listener pattern id _ ih => exact addListenerAt_good _ pattern id ih
+  exact getHandler_ne_panic root hg path rname
 
 /-- **params are exact** on a freshly registered pattern: the reported parameters are exactly
 the name's tokens at the `$`-positions of the pattern -/
@@ -116,8 +174,8 @@ theorem params_exact (pattern : Str) (id : Nat) (group : Str) (par : Bool) (root
     (hm : matchNode root' toks 0 0 = some f) :
     ∃ m, paramValues f.node.params toks f.mountIdx = some m ∧
       (∀ (j : Nat) (name : Str), (splitPattern pattern)[j]? = some (Ch.dollar :: name) → Pattern.mapGet m name = toks[j]?) ∧
-      (∀ (name v : Str), Pattern.mapGet m name = some v → ∃ j : Nat, (splitPattern pattern)[j]? = some (Ch.dollar :: name)) := by
-  sorry
+      (∀ (name v : Str), Pattern.mapGet m name = some v → ∃ j : Nat, (splitPattern pattern)[j]? = some (Ch.dollar :: name)) :=
+  params_exact' h hm
 
 /-- **group is exact**: the stored group is the parsed template (indexes are positions of the
 `$tag` tokens in the pattern), so `groupToString` substitutes the name's tokens at those positions;
@@ -126,18 +184,28 @@ theorem group_exact (pattern : Str) (id : Nat) (group : Str) (par : Bool) (root'
     (h : addHandlerAt Node.empty pattern id group par = (root', .ok ()))
     (hm : matchNode root' toks 0 0 = some f) :
     f.mountIdx = 0 ∧ ∃ reg, f.node.hs = some reg ∧ reg.id = id ∧
-      (if par then reg.group = some [] else parseGroup group pattern = .ok reg.group) := by
-  sorry
+      (if par then reg.group = some [] else parseGroup group pattern = .ok reg.group) :=
+  group_exact' h hm
 
 /-- a group tag index produced by `parseGroup` points at the `$tag` token of the pattern -/
 theorem parseGroup_idx (group pattern : Str) (parts : List GPart) (i : Nat)
     (h : parseGroup group pattern = .ok (some parts)) (hi : GPart.idx i ∈ parts) :
-    ∃ name, (splitPattern pattern)[i]? = some (Ch.dollar :: name) := by
-  sorry
+    ∃ name, (splitPattern pattern)[i]? = some (Ch.dollar :: name) :=
+  parseGroup_idx' h hi
 
 /-! ## non-vacuity -/
 -- a=97 b=98 x=120 '$'=36 '.'=46 '>'=62 '*'=42
 example : ElemsMatch [.lit [97], .param, .wild] [[97], [98], [99], [100]] := by simp [ElemsMatch]
 example : MoreSpecific [.lit [97], .param] [.lit [97], .wild] := by simp [MoreSpecific, elemCls]
+
+-- the hypotheses of `params_exact` / `group_exact` / `lookup_never_panics` / `add_conflict` are met:
+-- "a.$x" registered on the empty mux, then "a.b" looked up
+def ex1 := addHandlerAt Node.empty [97, 46, 36, 120] 7 [] false
+example : ex1.2 = .ok () := rfl
+example : (matchNode ex1.1 [[97], [98]] 0 0).isSome = true := by decide
+example : getHandler [] ex1.1 [97, 46, 98] = .found ⟨7, [], [([120], [98])], [97, 46, 98]⟩ := by decide
+example : Reachable ex1.1 := .handler _ _ _ _ .empty
+example : (addAt Node.empty [97, 46, 42] 1 none).2 = .ok () := rfl   -- "a.*"
+example : (addAt ex1.1 [97, 46, 36, 121] 1 none).2 = .error .already := rfl   -- "a.$y" hits the node of "a.$x"
 
 end GoRes.Props.C06
